@@ -1,5 +1,6 @@
 """C07 - dispatch: each datagram consumed once, only by a capable, addressed consumer."""
 import asyncio
+import re
 
 import rig
 import vloop
@@ -68,6 +69,8 @@ def gen_arrivals(rng, n, horizon_ms):
         ("misaddressed-src", lambda: rig.frame(b"SPA99:99:99:99:99:99", CLIENT, b"STATP\x01\x00\x10\xaa\xbb")),
         ("misaddressed-dst", lambda: rig.frame(SPA_ID, b"IOSsomeoneelse", b"STATP\x01\x00\x10\xaa\xbb")),
         ("malformed-frame", lambda: b"<PACKT>garbage without tags</PACKT>"),
+        ("malformed-inner-foreign", lambda: b"<PACKT><SRCCN>SPA99:99:99:99:99:99</SRCCN><DESCN>IOSsomeoneelse</DESCN>STATP no datas tag</PACKT>"),
+        ("malformed-inner-ours", lambda: b"<PACKT><SRCCN>" + SPA_ID + b"</SRCCN><DESCN>" + CLIENT + b"</DESCN><DATAS>APING\x00</PACKT>"),
         ("malformed-frame-open", lambda: b"<PACKT><SRCCN>x</SRCCN>"),
         ("statq-stray", lambda: b"STATQ\x05"),
         ("packs-stray", lambda: good(b"PACKS")),
@@ -266,6 +269,26 @@ def run(ctx):
             # only a violation if explained by a mis-addressed packet having had an effect: the mis-addressed ones write position 0x10
             if res["block"][0x10:0x12] == b"\xaa\xbb":
                 ctx.violation("misaddressed-effect", inp, "mis-addressed packets have no effect on the client's block", "block changed at 0x10")
+        # conservation of re-queued content: the packet consumer re-queues (put with the 4-tuple parms) exactly the DATAS of each
+        # well-formed frame addressed from this spa to this client, once each, in arrival order - nothing for any other datagram
+        exp_rq = []
+        for ms, d, lab in arrivals:
+            m = re.fullmatch(rb"<PACKT><SRCCN>(.*?)</SRCCN><DESCN>(.*?)</DESCN><DATAS>(.*)</DATAS></PACKT>", d, re.DOTALL)
+            if m and m.group(1) == SPA_ID and m.group(2) == CLIENT:
+                exp_rq.append(m.group(3))
+        got_rq = [e[3][1] for e in tr.ev if e[1] == "put" and isinstance(e[3][2], tuple) and len(e[3][2]) == 4]
+        ctx.cov["requeued_packets_checked"] = ctx.cov.get("requeued_packets_checked", 0) + len(got_rq)
+        # (a frame may also be discarded by the unhandled consumer - the property allows that - so: an in-order SUBSEQUENCE)
+        it_, k = iter(exp_rq), None
+        for i, g in enumerate(got_rq):
+            if not any(g == e for e in it_):
+                k = i
+                break
+        if k is not None:
+            ctx.violation("requeue-not-conserved", inp,
+                          "the packet consumer re-queues only the content of addressed well-formed frames, each at most once, in arrival order",
+                          {"requeued": len(got_rq), "frames_addressed_to_us": len(exp_rq), "unexplained_requeue_index": k,
+                           "content": hx(got_rq[k]) if got_rq[k] is not None else None})
         ctx.cov["max_head_age_ms_observed"] = max(ctx.cov.get("max_head_age_ms_observed", 0), max_age if fair else 0)
         if r == 0:
             ctx.sample({"validator_lines": lines[:25]})
